@@ -148,7 +148,13 @@ def ev_calc(rec, rng, arm, protein, striped, ranks, rows, tag):
         rec.emit(e)
         return
     sc = r[1]
-    r2 = call(lambda: (len(sc), [grid(sc[i]) for i in range(len(sc))], sc.max(), sc.argmax()))
+    def read_scores():
+        by_index = [grid(sc[i]) for i in range(len(sc))]
+        # the same values through the sequence protocol (iteration stops at the first IndexError): one more or one less
+        # element than len() shows up here
+        by_iter = [grid(x) for x in sc]
+        return by_index if by_iter == by_index else by_iter
+    r2 = call(lambda: (len(sc), read_scores(), sc.max(), sc.argmax()))
     if r2[0] != "ok":
         e.update(ret=r2[0], msg=r2[1], scores=[], max=[], argmax=[], thr=0, hits=[], len=0)
         rec.emit(e)
@@ -478,6 +484,10 @@ def c17_errors(rec, rng, thorough):
         ("pvalue_bad_method", lambda: dna.pvalue(1.0, method="nope")),
         ("rc_protein", lambda: prot.reverse_complement()),
         ("load_bad_format", lambda: list(lightmotif.load(io.BytesIO(b""), "nope"))),
+        # damaged files: a record that cannot be parsed must raise, not end the iteration early
+        ("load_damaged_second_record", lambda: list(lightmotif.load(io.BytesIO(b">M1 a\n1 2\n3 4\n5 6\n7 8\n>M2 b\n1 x\n3 4\n5 6\n7 8\n"), "jaspar"))),
+        ("load_damaged_first_record", lambda: list(lightmotif.load(io.BytesIO(b">M1 a\n1 2\n3 y\n5 6\n7 8\n"), "jaspar"))),
+        ("load_damaged_jaspar16", lambda: list(lightmotif.load(io.BytesIO(b">M1\nA [ 1 2 ]\nC [ 1 2 ]\nG [ 1 z ]\nT [ 1 2 ]\n"), "jaspar16"))),
         ("load_protein_jaspar", lambda: list(lightmotif.load(io.BytesIO(b""), "jaspar", protein=True))),
         ("load_missing_file", lambda: list(lightmotif.load("/nonexistent/file.jaspar", "jaspar"))),
         ("load_text_file_object", lambda: list(lightmotif.load(io.StringIO("x"), "jaspar"))),
@@ -664,7 +674,7 @@ def emit_view(rec, kind, logical, r, extra):
 
 
 def record_c18(rec, rng, thorough):
-    sizes = list(range(0, 41)) + [63, 64, 65, 100, 200] if thorough else [0, 1, 2, 3, 4, 5, 7, 8, 9, 16, 31, 32, 33, 40, 65, 130]
+    sizes = list(range(0, 41)) + [63, 64, 65, 100, 200] if thorough else [0, 1, 2, 3, 4, 5, 7, 8, 9, 16, 31, 32, 33, 40, 65, 130, 1024, 1056]
     for L in sizes:
         for protein in (False, True):
             k = len(letters(protein))
